@@ -641,10 +641,20 @@ class Script:
             src_trace.append(cj)
             out.extend(self.tail_after.get(pi, []))
 
+        def toks(ls):
+            return [x for l in ls for x in _code_tokens(l)]
+
         for tag, i1, i2, j1, j2 in sm.get_opcodes():
             if tag == 'equal':
                 for d in range(i2 - i1):
                     emit_pinned_line(i1 + d, cur_lines[j1 + d], j1 + d)
+            elif tag == 'replace' and toks(P[i1:i2]) == toks(cur_lines[j1:j2]):
+                # the same tokens laid out on other lines (re-formatting): the block is the pinned block
+                k = len(src_trace)
+                for pi in range(i1, i2):
+                    emit_pinned_line(pi, P[pi], None)
+                del src_trace[k:]
+                src_trace.extend(range(j1, j2))
             elif tag == 'replace' and (i2 - i1) == (j2 - j1):
                 for d in range(i2 - i1):
                     emit_pinned_line(i1 + d, cur_lines[j1 + d], j1 + d)
@@ -673,6 +683,58 @@ class Script:
             raise Undecided("internal: overlay did not consume the current text exactly once")
         return out
 
+
+
+# --------------------------------------------------------------------------- renamed locals
+
+_TOK = re.compile(r"[A-Za-z_]\w*|\d\w*|\S")
+_IDENT = re.compile(r"^[A-Za-z_]\w*$")
+
+
+def _code_tokens(line):
+    return _TOK.findall(re.sub(r'//.*$', '', line))
+
+
+def infer_renames(pinned, ann, cur):
+    """Identifiers of the pinned text that no longer occur in the current text, paired with the new identifiers
+    that stand at the same token positions of otherwise identical lines. The pairing must be consistent,
+    one-to-one and must not capture a name used by the annotations; otherwise no renaming is inferred (and the
+    unit is handled as before). The renaming is applied to the *annotations* (pinned + ghost text) only: the
+    executable lines that are verified are still those of the current text."""
+    idents = lambda txt: set(x for l in txt.split('\n') for x in _code_tokens(l) if _IDENT.match(x))
+    ip, ic, ia = idents(pinned), idents(cur), idents(ann)
+    old, new = ip - ic, ic - ip
+    if not old or not new:
+        return {}
+    mask = lambda l, s: ' '.join('\u00a7' if x in s else x for x in _code_tokens(l))
+    P = [l for l in pinned.split('\n')]
+    C = [l for l in cur.split('\n')]
+    sm = difflib.SequenceMatcher(a=[mask(l, old) for l in P], b=[mask(l, new) for l in C], autojunk=False)
+    ren = {}
+    for tag, i1, i2, j1, j2 in sm.get_opcodes():
+        if tag != 'equal':
+            continue
+        for d in range(i2 - i1):
+            tp, tc = _code_tokens(P[i1 + d]), _code_tokens(C[j1 + d])
+            if len(tp) != len(tc):
+                return {}
+            for a, b in zip(tp, tc):
+                if a in old or b in new:
+                    if not (a in old and b in new):
+                        return {}
+                    if ren.setdefault(a, b) != b:
+                        return {}
+    if len(set(ren.values())) != len(ren):
+        return {}
+    if any(b in ia for b in ren.values()):
+        return {}
+    return ren
+
+
+def apply_renames(txt, ren):
+    for a, b in ren.items():
+        txt = re.sub(r'(?<![\w])%s(?![\w])' % re.escape(a), b, txt)
+    return txt
 
 # --------------------------------------------------------------------------- canary
 
@@ -760,10 +822,19 @@ def apply_overlay(repo_src_dir, out_src_dir, units, canary=False, only_files=Non
                 raise Undecided("unit %s: %s" % (u.id, ex), unit=u.id)
             cur = src[s:e]
             pre = u.meta.get('pre')
-            script = Script(apply_pre(u.pinned, pre).split('\n'), u.ann.split('\n'))
+            u_pinned, u_ann = u.pinned, u.ann
+            renames = {}
+            if cur != u.pinned:
+                renames = infer_renames(u.pinned, u.ann, cur)
+                if renames:
+                    u_pinned, u_ann = apply_renames(u.pinned, renames), apply_renames(u.ann, renames)
+            script = Script(apply_pre(u_pinned, pre).split('\n'), u_ann.split('\n'))
             if cur == u.pinned:
                 new = u.ann
                 status = 'pinned'
+            elif cur == u_pinned:
+                new = u_ann
+                status = 'transplanted'
             else:
                 try:
                     new = '\n'.join(script.replay_on(apply_pre(cur, pre).split('\n')))
@@ -786,7 +857,7 @@ def apply_overlay(repo_src_dir, out_src_dir, units, canary=False, only_files=Non
                 text = ''
             repl.append((s, e, text))
             report[u.id] = {'id': u.id, 'file': file, 'status': status, 'sha_current': sha(cur),
-                            'sha_pinned': sha(u.pinned), 'edits': ([{'rule': 'pre:' + x, 'before': 'logging statements', 'after': '(dropped)'} for x in (pre or [])] + script.edits()), 'props': u.props,
+                            'sha_pinned': sha(u.pinned), 'edits': ([{'rule': 'pre:' + x, 'before': 'logging statements', 'after': '(dropped)'} for x in (pre or [])] + [{'rule': 'rename-in-annotations', 'before': a, 'after': b} for a, b in sorted(renames.items())] + script.edits()), 'props': u.props,
                             'kind': u.kind}
         repl.sort()
         for k in range(1, len(repl)):
